@@ -108,6 +108,119 @@ def oracle_store(store, how):
     return aasgen.diff(before, after)
 
 
+# ---- mixed transports: the document is written through one kind of destination and read back through another kind of
+# source.  Every UTF-8 destination must leave the same bytes behind - the UTF-8 encoding of the JSON text, nothing before
+# it (RFC 8259, 8.1: no byte order mark) - and every kind of source must accept them.
+WRITE_KINDS = ("path", "pathlib", "binary", "file-binary", "tmp-binary", "spooled", "text", "file-text", "tmp-text")
+READ_KINDS = ("text", "file-text", "binary", "file-binary", "path", "pathlib", "tmp-binary", "tmp-text")
+
+
+def write_bytes(store, how):
+    """the bytes that write_aas_json_file leaves behind in a UTF-8 destination of kind `how` (WRITE_KINDS)"""
+    import pathlib
+    from basyx.aas.adapter.json import write_aas_json_file
+    if how == "text":
+        buf = io.StringIO()
+        write_aas_json_file(buf, store)
+        return buf.getvalue().encode("utf-8")
+    if how == "binary":
+        buf = io.BytesIO()
+        write_aas_json_file(buf, store)
+        return buf.getvalue()
+    if how == "spooled":
+        with tempfile.SpooledTemporaryFile(max_size=64) as f:
+            write_aas_json_file(f, store)
+            f.seek(0)
+            return f.read()
+    fd, path = tempfile.mkstemp(suffix=".json", prefix="verif-c03-")
+    os.close(fd)
+    try:
+        if how == "path":
+            write_aas_json_file(path, store)
+        elif how == "pathlib":
+            write_aas_json_file(pathlib.Path(path), store)
+        elif how in ("file-binary", "tmp-binary"):
+            with (open(path, "wb") if how == "file-binary" else
+                  tempfile.NamedTemporaryFile(prefix="verif-c03-")) as f:
+                write_aas_json_file(f, store)
+                if how == "tmp-binary":
+                    f.seek(0)
+                    return f.read()
+        else:
+            with (open(path, "w", encoding="utf-8") if how == "file-text" else
+                  tempfile.NamedTemporaryFile("w+", encoding="utf-8", prefix="verif-c03-")) as f:
+                write_aas_json_file(f, store)
+                if how == "tmp-text":
+                    f.seek(0)
+                    return f.read().encode("utf-8")
+        with open(path, "rb") as f:
+            return f.read()
+    finally:
+        os.remove(path)
+
+
+def read_bytes(data, how):
+    """strict read of the document `data` (bytes) through a source of kind `how` (READ_KINDS); text sources are opened by
+    the caller as plain UTF-8, the way `open(p, encoding="utf-8")` / io.StringIO(text) do"""
+    import pathlib
+    from basyx.aas.adapter.json import read_aas_json_file
+    if how == "text":
+        return read_aas_json_file(io.StringIO(data.decode("utf-8")), failsafe=False)
+    if how == "binary":
+        return read_aas_json_file(io.BytesIO(data), failsafe=False)
+    if how in ("tmp-binary", "tmp-text"):
+        with (tempfile.NamedTemporaryFile(prefix="verif-c03-") if how == "tmp-binary" else
+              tempfile.NamedTemporaryFile("w+", encoding="utf-8", prefix="verif-c03-")) as f:
+            f.write(data if how == "tmp-binary" else data.decode("utf-8"))
+            f.seek(0)
+            return read_aas_json_file(f, failsafe=False)
+    fd, path = tempfile.mkstemp(suffix=".json", prefix="verif-c03-")
+    try:
+        with os.fdopen(fd, "wb") as f:
+            f.write(data)
+        if how == "path":
+            return read_aas_json_file(path, failsafe=False)
+        if how == "pathlib":
+            return read_aas_json_file(pathlib.Path(path), failsafe=False)
+        if how == "file-binary":
+            with open(path, "rb") as f:
+                return read_aas_json_file(f, failsafe=False)
+        with open(path, "r", encoding="utf-8") as f:
+            return read_aas_json_file(f, failsafe=False)
+    finally:
+        os.remove(path)
+
+
+def oracle_cross(store, w, r):
+    """write through a destination of kind w, read the bytes back through a source of kind r.  Judged independently of
+    the adapters: (1) the bytes are a UTF-8 JSON text without byte order mark (json.loads of the decoded text, first
+    byte '{'), (2) canonical form before == after.  Returns (None or diff / exception text, first bytes)"""
+    before = strip_type(aasgen.canon_store(store))
+    try:
+        data = write_bytes(store, w)
+    except Exception as e:
+        return f"/: raised {type(e).__name__}: {str(e)[:150]}", ""
+    head = data[:8].hex()
+    bad_bytes = None
+    if not data.startswith(b"{"):
+        bad_bytes = f"/: document-bytes: the document written through {w} does not start with '{{' (first bytes {head}): " \
+                    f"not the UTF-8 encoding of a JSON text"
+    else:
+        try:
+            json.loads(data.decode("utf-8"))
+        except Exception as e:
+            bad_bytes = f"/: document-bytes: written through {w}: {type(e).__name__}: {str(e)[:120]}"
+    try:
+        st2 = read_bytes(data, r)
+    except Exception as e:
+        return f"/: raised {type(e).__name__}: {str(e)[:150]}" + (f" [{bad_bytes[3:]}]" if bad_bytes else ""), head
+    return aasgen.diff(before, strip_type(aasgen.canon_store(st2))) or bad_bytes, head
+
+
+def transport_class(kind):
+    return "path" if kind.startswith("path") else "text" if "text" in kind else "binary"
+
+
 def write_json(store, how, **kw):
     """the JSON document that write_aas_json_file / object_store_to_json produce for `store` through one kind of
     destination (STREAM_KINDS + 'string' = object_store_to_json), as text; kw is passed on (stripped=..., encoder=...)"""
@@ -279,7 +392,7 @@ def _run(chk):
     n_sweep = 2
     for i in range(-n_sweep, n_store):
         how = STREAM_KINDS[i % len(STREAM_KINDS)]
-        g = aasgen.Gen(rng, strings="json" if i % 2 else "plain", depth=3, wide_lists=True)
+        g = aasgen.Gen(rng, strings="json" if i % 2 else "plain", depth=3, wide_lists=True, calendar_edges=True)
         try:
             # stores -2, -1: the deterministic sweep (every edge value of every XSD type in all four typed holders)
             store = g.sweep_store() if i < 0 else g.store(rng.randint(1, 4))
@@ -315,11 +428,22 @@ def _run(chk):
                      f"JSON {how} round trip of a generated store differs: {d}",
                      {"how": f"seed={chk.seed} store #{i} via {how}; re-run ./check C03", "diff": d,
                       "canon_before": strip_type(aasgen.canon_store(store))})
+        # mixed transports: all pairs (destination kind, source kind) over the run, one pair per store
+        k = i + n_sweep
+        w, rd = WRITE_KINDS[k % len(WRITE_KINDS)], READ_KINDS[(k // len(WRITE_KINDS)) % len(READ_KINDS)]
+        chk.count("cross:" + w + "->" + rd)
+        dx, head = oracle_cross(store, w, rd)
+        if dx:
+            chk.fail(sig_of_diff(dx) + (f":document-bytes:{transport_class(w)}" if dx.startswith("/: document-bytes") else
+                                        f":{transport_class(w)}->{transport_class(rd)}" if dx.startswith("/: ") else ""),
+                     f"JSON round trip of a generated store, written through {w} and read back through {rd}, differs: {dx}",
+                     {"how": f"seed={chk.seed} store #{i} written via {w}, strict read via {rd}; re-run ./check C03",
+                      "diff": dx, "first_bytes_hex": head, "canon_before": strip_type(aasgen.canon_store(store))})
     # ---- correspondence of the interpreter + oracle on single objects
     terms, meta = [], []
     for i in range(n_obj):
         cls = TOP_CLASSES[i % len(TOP_CLASSES)]
-        g = aasgen.Gen(rng, strings="plain", depth=2, wide_lists=True)
+        g = aasgen.Gen(rng, strings="plain", depth=2, wide_lists=True, calendar_edges=True)
         try:
             obj = g.obj(cls)
             if cls in MODELTYPE_CLASSES:
@@ -377,7 +501,9 @@ def _run(chk):
     chk.assumptions = ["C06 (lexical round trip of typed values)", "json module round-trips str/bool/list/dict"]
     return chk.finish(level="proof",
                       rule="seeded generator tools/aasgen.py: stores of 1-4 identifiables (depth<=3, every class, optional attrs p=.5, "
-                           "31 XSD types with edge values, JSON lexical stress strings on every second store) through text/binary/path; "
+                           "31 XSD types with edge values incl. every calendar edge x time-zone class, JSON lexical stress strings on every "
+                           "second store) through text/binary/path and, per store, one pair (destination kind -> source kind) of the "
+                           "mixed-transport matrix (document bytes must be BOM-free UTF-8 JSON); "
                            "single objects of every META class (plain strings) for the interpreter correspondence; "
                            "non-trivial = every generated case; distinct by ids/class+index")
 
